@@ -106,10 +106,27 @@ func (e *Engine) verifyFunc(key string) (res *FuncResult) {
 			st.nonnil[r.S] = true
 		}
 	}
+	if spec.IfaceParams {
+		// the clauses of an interface-method contract name the parameters recv, a0, a1, ...
+		for i, p := range fn.Params {
+			if i == 0 {
+				x.params["recv"] = fr.locals[p]
+			} else {
+				x.params[fmt.Sprintf("a%d", i-1)] = fr.locals[p]
+			}
+		}
+	}
 	x.entry = st.clone()
 	env := x.newEnv(st, spec, x.params)
 	for _, r := range spec.Requires {
 		st.assume(env.evalBool(r.X))
+	}
+	if len(spec.ImplRequires) > 0 {
+		ienv := x.newEnv(st, &FuncSpec{File: spec.ImplFile, Lets: spec.ImplLets}, x.params)
+		for _, r := range spec.ImplRequires {
+			st.assume(ienv.evalBool(r.X))
+			x.assumeNote("A-impl-requires: the implementation's own precondition `" + r.Text + "` is assumed when it is reached through the interface (" + spec.Key + ")")
+		}
 	}
 	x.entry = st.clone()
 	// vacuity: the precondition must be satisfiable
@@ -252,7 +269,11 @@ func (x *Exec) obligeEmits(st *State, name string, tags []string, A Term, g Term
 
 // frameObligations: nothing outside `modifies` changed on pre-existing objects.
 func (x *Exec) frameObligations(st *State, env *Env) {
+	if x.spec.SkipFrame {
+		return
+	}
 	ml := x.resolveModifies(st, x.spec, env.inOld())
+	x.implementsFrame(st, ml)
 	i := Term{"i!fr", SInt}
 	for _, w := range wildRecs(st.heap) {
 		if _, atEntry := x.entry.heap[wildKeyPrefix+w.seq]; atEntry {
@@ -297,6 +318,14 @@ func (x *Exec) frameObligations(st *State, env *Env) {
 		var excl []Term
 		for _, idx := range ml.precise[name] {
 			excl = append(excl, Neq(i, idx))
+		}
+		if x.spec.IfaceParams && len(x.fn.Params) > 0 && len(ml.wild) > 0 && len(ml.keep) > 0 {
+			// implements check against a wildcard frame with preserved patterns: a method may write the fields of its
+			// own receiver object; the preserved patterns are stated for every other object (callers never read the private fields of the object they
+			// call through the interface: DESIGN §6.6)
+			if pt, ok := types.Unalias(x.fn.Params[0].Type()).Underlying().(*types.Pointer); ok && strings.HasPrefix(name, typeName(pt.Elem())+".") {
+				excl = append(excl, Neq(i, x.params[x.fn.Params[0].Name()].T()))
+			}
 		}
 		// reference 0 is nil: no object, holds nothing (ghost arrays are keyed by ids, where 0 is a key like any other)
 		lo := Gt(i, TZero)
